@@ -131,6 +131,38 @@ func main() {
 		if len(todo) == 1 {
 			wall = time.Since(start).Seconds()
 		}
+		// thorough: the same property on the other build configurations
+		if *tier == "thorough" {
+			for _, cfg := range thoroughConfigs {
+				buildGOOS, buildGOARCH = cfg[0], cfg[1]
+				c2, err := load(*repo)
+				if err != nil {
+					fmt.Fprintf(os.Stderr, "llvmlint: cannot analyse the tree under %s/%s (this is not 'property holds'): %v\n", cfg[0], cfg[1], err)
+					os.Exit(2)
+				}
+				r2 := runProperty(c2, p, *tier, findings)
+				res.Configs = append(res.Configs, fmt.Sprintf("%s/%s: %d packages, %d files, %d obligations, %d new violations, %d floor failures", cfg[0], cfg[1], len(c2.All), c2.nFiles, len(r2.Obs), len(r2.NewViol), len(r2.FloorFails)))
+				have := map[string]bool{}
+				for _, o := range res.NewViol {
+					have[o.Rule+"\x00"+o.Key] = true
+				}
+				for _, o := range r2.NewViol {
+					if !have[o.Rule+"\x00"+o.Key] {
+						o.Detail = "[" + cfg[0] + "/" + cfg[1] + "] " + o.Detail
+						res.NewViol = append(res.NewViol, o)
+					}
+				}
+				for _, f := range r2.FloorFails {
+					res.FloorFails = append(res.FloorFails, "["+cfg[0]+"/"+cfg[1]+"] "+f)
+				}
+			}
+			buildGOOS, buildGOARCH = "", ""
+			curCtx = c
+			wall = time.Since(t0).Seconds()
+			if len(todo) == 1 {
+				wall = time.Since(start).Seconds()
+			}
+		}
 		cmd := fmt.Sprintf("bin/llvmlint -repo %s -prop %s -tier %s", *repo, p.ID, *tier)
 		if !*noEvidence {
 			if err := writeEvidence(c, *verif, res, seed, wall, cmd); err != nil {
